@@ -513,7 +513,7 @@ def pb_session(ctx):
 
 
 def histories(ctx):
-    for _ in range(ctx.n(12, 200)):
+    for _ in range(ctx.n(20, 200)):
         ctx.label("history/wordlist-lookups")
         yield ("prop", "wordlist_session", [wl_ops(ctx, 4)])
     for _ in range(ctx.n(30, 600)):
